@@ -33,8 +33,13 @@ def gen_scenarios(prop, tier, seed):
         if prop == "C08":
             sc["threads"] = rnd.choice([2, 2, 3, 4, 6])
         G.fixed_size(rnd, sc)
-        if prop == "C02":
+        if prop == "C02" or (prop == "C08" and rnd.random() < 0.6):
             sc["alloc_script"] = G.rand_alloc_script(rnd, heavy=True)
+        if prop == "C08" and rnd.random() < 0.5:
+            # only some of the threads allocate inside the benchmarked function: the others'
+            # samples must report nothing of it
+            sc["alloc_script"]["call"] = [{"op": "alloc", "size": rnd.choice([8, 64])}] + G.rand_ops(rnd, 1)
+            sc["alloc_script"]["call_tids"] = sorted(rnd.sample(range(sc["threads"]), rnd.randint(1, sc["threads"] - 1)))
         scs.append(sc)
     # panics on a single thread (T = 1), every site
     scs += G.panic_scenarios(rnd, 80 if tier == "quick" else 600, single_thread_only=True)
